@@ -339,6 +339,34 @@ def _ub_report(res, eng, pc, ub, ob):
             res.setdefault("ub", []).append(f"{ob}: UB {u}")
 
 
+DEVICE_NAMES = ["FrontEcu", "ECU", "dash_2", "x"]
+
+
+def c06_device_name_case(args):
+    """'The generated C compiles' for device names of any legal spelling: every generated .c is compiled as emitted."""
+    devname, tier = args
+    add_repo_paths()
+    res = new_result()
+    s = flat_schema([("u", 8), ("i", 12)])
+    s.impls = [("can", "Msg", None, {"id": 0x65, "device": devname}, [])]
+    ob = f"device '{devname}'|every generated .c compiles"
+    res["obligations"].append(ob)
+    path = write_replay("C06", {"kind": "c_compile_sources", "schema_text": s.text(), "property": "C06", "device": devname})
+    ok, text = run_replay(path)
+    if ok:
+        res["violations"].append({"replay": path, "ob": ob, "what": f"generated C for device {devname!r} does not compile :: {text[-300:]}"})
+    elif ok is None:
+        res["inconclusive"].append(f"{ob}: replay harness failed: {text[-200:]}")
+    else:
+        res["discharged"] += 1
+    res["sample"] = {"device": devname}
+    return res
+
+
+def _c06_dispatch(args):
+    return c06_device_name_case(args[1:]) if args[0] == "devname" else c06_case(args[1:])
+
+
 def run_c06(tier: str) -> int:
     rep = Report("C06", tier)
     fam = c06_family(tier, seed())
@@ -346,7 +374,7 @@ def run_c06(tier: str) -> int:
         "schemas": len(fam),
         "family": "flat CAN structs: every width class x signedness alone; padded pairs at offsets 1,3,8,13; floats at "
                   "aligned/unaligned offsets; enums of 1/3/8 bits; 1..8 signals; ids 0 and 2047 (+ seeded random "
-                  "mixes in thorough)",
+                  "mixes in thorough); device names FrontEcu / ECU / dash_2 / x (compile only)",
         "values": "encode: all in-range field values (floats: all non-NaN patterns); decode: all 2^80 frames",
         "ir": "clang-14 -O0 IR of the generated <device>_can.c, can_signal_parser.c and a 2-line harness TU",
         "outside": "muxed and big-endian C messages, scale/offset other than the 1.0/0.0 the generator emits, NaN payloads, "
@@ -358,7 +386,7 @@ def run_c06(tier: str) -> int:
         "x86-64 SysV struct layout and bit-field allocation (id:11, dlc:4 in the first two bytes of CanFrame)",
         "oracle: refspec layout packing of the struct (same bits as the canonical wire format, as one 64-bit word)"]
     ubs = []
-    for r in pmap(c06_case, [(s, tier) for s in fam]):
+    for r in pmap(_c06_dispatch, [("devname", n, tier) for n in DEVICE_NAMES] + [("schema", s, tier) for s in fam]):
         rep.merge(r)
         ubs += r.get("ub", [])
         if rep.red_enough():
